@@ -142,7 +142,8 @@ def env_values():
     # the listeners (and the model's host environment) are keyed by the label as it is handed over, `$` included
     dz, na = error.from_message('#DIV/0!'), error.from_message('#N/A')
     cells = {'C3': dz, '$C$3': dz, 'D4': na, 'D$4': na, '$D4': na, 'B2': 7}
-    ranges = {('A1', 'A3'): [[2], [3], [5]], ('$A$1', 'A3'): [[2], [3], [5]]}
+    # A5:A7 is a column in which the host keeps error values (the results of its own earlier evaluations) beside a number
+    ranges = {('A1', 'A3'): [[2], [3], [5]], ('$A$1', 'A3'): [[2], [3], [5]], ('A5', 'A7'): [[na], [dz], [5]]}
     return vs, cells, ranges
 
 
@@ -602,6 +603,12 @@ FIXED_TREES = [
     ('bin', '+', ('bin', '+', _arr('{1,2}', 'two'), _NA), _DZ), ('bin', '&', ('bin', '+', _arr('{1,2}', 'two'), _NA), _N1),
     ('bin', '-', _arr('lst_n', 'sq'), ('err', 'data', 'e_data', False)), ('bin', '*', _arr('A1:A3', 'col'), _dyn('C3')),
     ('bin', '+', _arr('{1,2}', 'two'), _arr('{3,4}', 'two')),
+    # arrays that HOLD error values are arrays, not errors: no trap fires, ISERROR = ISERR or ISNA (= FALSE)
+    _arr('{1,2}/0', 'two'), _arr('{1,2}/{1,0}', 'two'), _arr('{4,"a"}*2', 'two'), _arr('{1,NA()}', 'two'), _arr('A5:A7', 'col'),
+    _arr('A5:A7*2', 'col'), _arr('lst_b/0', 'two'),
+    # an error value taken out of a range the host supplied is the error it was in the host's cell: every trap sees it
+    _dyn('INDEX(A5:A7,1,1)'), _dyn('INDEX(A5:A7,2,1)'), ('bin', '+', _dyn('INDEX(A5:A7,1,1)'), _N1),
+    ('bin', '&', _dyn('INDEX(A5:A7,2,1)'), _dyn('INDEX(A5:A7,1,1)')), ('call', 'ID', 'flat', [_dyn('INDEX(A5:A7,1,1)')], []),
 ]
 
 
@@ -777,6 +784,10 @@ def oracle(c, impl_ans):
         if recs[w]['error'] is not None or not same(recs[w]['result'], bare['result']):
             return bad(w, 'x is not an error, so the result is x = %r' % (bare['result'],))
     if isinstance(bare['result'], list):
+        # an array (whatever it holds) is no error: the three predicates answer alike - ISERROR = ISERR or ISNA
+        e, r, n = recs['ISERROR(%s)'], recs['ISERR(%s)'], recs['ISNA(%s)']
+        if all(x['error'] is None and isinstance(x['result'], bool) for x in (e, r, n)) and e['result'] != (r['result'] or n['result']):
+            return bad('ISERROR(%s)', 'ISERROR = ISERR or ISNA, and on this array ISERR gives %r, ISNA gives %r' % (r['result'], n['result']))
         return None
     for w in ('ISERROR(%s)', 'ISERR(%s)', 'ISNA(%s)'):
         if recs[w] != {'result': False, 'error': None}:
